@@ -615,6 +615,7 @@ package compiler
 //@   property C06 C05
 //@   requires pass != nil && visitor != nil && schema != nil && def.Kind == ast.KindDisjunction
 //@   ensures  leaf: result.1 == nil ==> result.0.Kind == ast.KindScalar || result.0.Kind == ast.KindRef
+//@   ensures  nullable: result.1 == nil && result.0.Kind == ast.KindScalar ==> result.0.Nullable == def.Nullable
 //@   ensures  resolves: result.1 == nil && result.0.Kind == ast.KindRef ==> visitor.newObjects.records.has(refKey(result.0.Ref.ReferredPkg, result.0.Ref.ReferredType))
 //
 // duplicate_object: for schemas of the target package, when the source object exists, an object is
